@@ -439,6 +439,9 @@ func DeserializeNode(data []byte) (Node, error) {
 				} else {
 					childNodeValue.hash = child[hashWithWeightLength : hashWithWeightLength+32]
 					childKey := child[hashWithWeightLength+32:]
+					if !isNibbles(childKey) {
+						return nil, errors.New("invalid short node key")
+					}
 					branchNode.Children[i] = &shortNode{
 						key:   childKey,
 						hash:  childHash,
@@ -468,6 +471,9 @@ func DeserializeNode(data []byte) (Node, error) {
 	if pNode.Short != nil {
 		shortNode := shortNode{}
 		shortNode.key = pNode.Short.Key
+		if !isNibbles(shortNode.key) {
+			return nil, errors.New("invalid short node key")
+		}
 		if len(pNode.Short.Value) != hashWithWeightLength {
 			return nil, errors.New("invalid hash with weight")
 		}
@@ -481,6 +487,17 @@ func DeserializeNode(data []byte) (Node, error) {
 	}
 
 	return nil, errors.New("invalid node")
+}
+
+// isNibbles reports whether every element of a decoded key is a nibble: key elements index the
+// sixteen children of a branch
+func isNibbles(key []byte) bool {
+	for _, b := range key {
+		if b >= branchNodeLength {
+			return false
+		}
+	}
+	return true
 }
 
 func keybytesToHex(str []byte) []byte {
